@@ -7,7 +7,7 @@
    (most significant first) and are reduced by Horner's rule.  Two exactly equal rationals
    agree for every prime, so a comparison in F_p never raises a false alarm; a wrong value
    survives all four primes with probability ~ 1e-18.                                      *)
-EXTENDS Integers, Sequences
+EXTENDS Integers, Sequences, TLC
 
 Primes == <<32749, 32719, 32717, 32713>>
 NP == 4
@@ -19,15 +19,22 @@ PowMod(b, e, p) == IF e = 0 THEN 1
                         IF e % 2 = 0 THEN (h * h) % p ELSE (((h * h) % p) * b) % p
 InvMod(a, p) == PowMod(a % p, p - 2, p)
 
-RInt(n) == [k \in PIdx |-> n % Primes[k]]       \* TLC's % is non-negative for a positive modulus
-RAdd(x, y) == [k \in PIdx |-> (x[k] + y[k]) % Primes[k]]
-RSub(x, y) == [k \in PIdx |-> (x[k] - y[k] + Primes[k]) % Primes[k]]
-RNeg(x) == [k \in PIdx |-> (Primes[k] - x[k]) % Primes[k]]
-RMul(x, y) == [k \in PIdx |-> (x[k] * y[k]) % Primes[k]]
-RInv(x) == [k \in PIdx |-> InvMod(x[k], Primes[k])]
+\* A residue of -1 means "blind": somewhere on the way to this value the inverse of a number
+\* divisible by that prime was needed, so this prime can say nothing about the value.  Blindness
+\* propagates through every operation and a blind prime is skipped by every comparison.
+Blind == -1
+B2(a, b, v) == IF a = Blind \/ b = Blind THEN Blind ELSE v
+RInt(n) == TLCEval([k \in PIdx |-> n % Primes[k]])   \* TLC's % is non-negative for a positive modulus
+RAdd(x, y) == TLCEval([k \in PIdx |-> B2(x[k], y[k], (x[k] + y[k]) % Primes[k])])
+RSub(x, y) == TLCEval([k \in PIdx |-> B2(x[k], y[k], (x[k] - y[k] + Primes[k]) % Primes[k])])
+RNeg(x) == TLCEval([k \in PIdx |-> B2(x[k], 0, (Primes[k] - x[k]) % Primes[k])])
+RMul(x, y) == TLCEval([k \in PIdx |-> B2(x[k], y[k], (x[k] * y[k]) % Primes[k])])
+RInv(x) == TLCEval([k \in PIdx |-> IF x[k] = Blind \/ x[k] = 0 THEN Blind ELSE InvMod(x[k], Primes[k])])
 RDiv(x, y) == RMul(x, RInv(y))
-RZero(x) == \A k \in PIdx : x[k] = 0            \* zero for every prime (exact zero, or ~1e-18)
-RBlind(x) == {k \in PIdx : x[k] = 0}            \* primes dividing x: blind for 1/x
+\* zero for every prime that can see the value (exact zero, or ~1e-18), and at least one can
+RZero(x) == (\A k \in PIdx : x[k] = 0 \/ x[k] = Blind) /\ (\E k \in PIdx : x[k] = 0)
+RBlind(x) == {k \in PIdx : x[k] = Blind}
+REq(x, y) == \A k \in PIdx : x[k] = Blind \/ y[k] = Blind \/ x[k] = y[k]
 RECURSIVE RPowNat(_, _)
 RPowNat(x, n) == IF n = 0 THEN RInt(1)
                  ELSE LET h == RPowNat(x, n \div 2) IN IF n % 2 = 0 THEN RMul(h, h) ELSE RMul(RMul(h, h), x)
@@ -37,11 +44,11 @@ RRat(n, d) == RDiv(RInt(n), RInt(d))
 \* residues of a limb sequence (base 10^4, most significant first)
 RECURSIVE HornerL(_, _, _, _)
 HornerL(ls, i, acc, p) == IF i > Len(ls) THEN acc ELSE HornerL(ls, i + 1, (acc * 10000 + ls[i]) % p, p)
-RLimbs(ls) == [k \in PIdx |-> HornerL(ls, 1, 0, Primes[k])]
+RLimbs(ls) == TLCEval([k \in PIdx |-> HornerL(ls, 1, 0, Primes[k])])
 \* residues of a decimal digit sequence (values 0..9, most significant first)
 RECURSIVE HornerD(_, _, _, _)
 HornerD(ds, i, acc, p) == IF i > Len(ds) THEN acc ELSE HornerD(ds, i + 1, (acc * 10 + ds[i]) % p, p)
-RDigits(ds) == [k \in PIdx |-> HornerD(ds, 1, 0, Primes[k])]
+RDigits(ds) == TLCEval([k \in PIdx |-> HornerD(ds, 1, 0, Primes[k])])
 
 \* a recorded value num/den (limbs, sign) equals the residue vector x for every prime that
 \* does not divide den  <=>  num = x * den (mod p)
@@ -49,7 +56,7 @@ SameAs(x, neg, numLimbs, denLimbs) ==
   LET n0 == RLimbs(numLimbs)
       n == IF neg THEN RNeg(n0) ELSE n0
       d == RLimbs(denLimbs) IN
-  \A k \in PIdx : d[k] = 0 \/ n[k] = (x[k] * d[k]) % Primes[k]
+  \A k \in PIdx : d[k] = 0 \/ x[k] = Blind \/ n[k] = (x[k] * d[k]) % Primes[k]
 
 \* ---- small exact rationals <<n, d>>, d > 0, reduced; Unknown when a bound would be exceeded
 Unknown == <<0, 0>>
